@@ -28,7 +28,7 @@ func init() {
 		{Pkg: "crypto/sha256", Func: "Sum256", Oracle: true},
 		{Pkg: "encoding/hex", Func: "EncodeToString", Oracle: true},
 		{Pkg: "encoding/json", Func: "Marshal", Oracle: true},
-		{Pkg: "encoding/json", Func: "Unmarshal", Oracle: true},
+		{Pkg: "encoding/json", Func: "Unmarshal", Oracle: true, OutParams: []string{"v"}},
 		{Pkg: "os", Func: "ReadFile", Oracle: true},
 		{Pkg: "path/filepath", Func: "Join", Oracle: true},
 		{Pkg: "errors", Func: "Is", Oracle: true},
